@@ -374,6 +374,12 @@ def h_discover(ctx, ndev, maxinst):
     return "n=%d" % len(want)
 
 
+def h_input_then(ctx):
+    with ctx.namespace("g."):
+        a = h_input(ctx, False)
+    return "%s | %s" % (a, h_input(ctx, True))
+
+
 def cases(tier):
     cs = [Case("input-given", h_input, {"ask": False}), Case("input-asked", h_input, {"ask": True})]
     for fi in range(len(FILTERS)):
@@ -387,6 +393,15 @@ def cases(tier):
             cs.append(Case("query-filter-module-%s" % FILTERS[fi][0], h_query_filter,
                            {"fi": fi, "form": "module"}, install=_install))
     cs.append(Case("scheme", h_scheme, {}, install=_install))
+    # the same sequence twice in one process against independent units (another resolution, other stale
+    # DTRs, another filter): nothing remembered from the first run may be used in the second
+    cs.append(Case("input-asked-twice", h_input, {"ask": True}, repeat=2))
+    cs.append(Case("input-given-then-asked", h_input_then, {}))
+    cs.append(Case("set-filter-twice-user24", h_set_filter, {"fi": len(FILTERS) - 1, "plain_int": False},
+                   install=_install, repeat=2))
+    cs.append(Case("query-filter-twice-user24", h_query_filter, {"fi": len(FILTERS) - 1, "form": "class"},
+                   install=_install, repeat=2))
+    cs.append(Case("scheme-twice", h_scheme, {}, install=_install, repeat=2))
     cs.append(Case("scheme-enum", h_scheme_enum, {}, install=_install))
     if tier == "quick":
         cs.append(Case("discover-2x2", h_discover, {"ndev": 2, "maxinst": 2}))
